@@ -60,6 +60,9 @@ pub struct Cfg {
     /// size of the runtime's blocking pool (None = tokio default); 1 lets a check own the order of pearl's file operations
     #[serde(default)]
     pub blocking_threads: Option<usize>,
+    /// `Builder::corrupted_dir_name` (None = pearl's default "corrupted"); may have several components ("q/sub")
+    #[serde(default)]
+    pub corrupted_dir: Option<String>,
 }
 
 impl Default for Cfg {
@@ -77,6 +80,7 @@ impl Default for Cfg {
             max_blob_size: 1 << 40,
             max_data_in_blob: 1 << 30,
             blocking_threads: None,
+            corrupted_dir: None,
         }
     }
 }
@@ -115,11 +119,19 @@ impl Cfg {
         if let Some(l) = self.dirty_limit {
             b = b.set_max_dirty_bytes_before_sync(l);
         }
+        if let Some(c) = &self.corrupted_dir {
+            b = b.corrupted_dir_name(c.clone());
+        }
         b
     }
 
     pub fn deferred_short(&self) -> bool {
         self.defer_ms.1 <= 1000
+    }
+
+    /// Directory into which blobs of `dir` are quarantined
+    pub fn corrupted_path(&self, dir: &Path) -> PathBuf {
+        dir.join(self.corrupted_dir.as_deref().unwrap_or("corrupted"))
     }
 
     pub fn runtime(&self) -> tokio::runtime::Runtime {
@@ -218,6 +230,9 @@ pub trait Sut: Send + Sync {
     /// `BloomProvider::check_filter`: true = NeedAdditionalCheck, false = NotContains
     async fn check_filter(&self, key: &[u8]) -> bool;
     async fn filter_memory(&self) -> usize;
+    /// `BloomProvider::get_filter` (the overall filter of the storage, if it has one) and `check_filter_fast`:
+    /// (overall filter present, overall filter says NotContains, check_filter_fast says NotContains)
+    async fn overall_filter(&self, key: &[u8]) -> (bool, bool, bool);
     fn bg(&self) -> BgState;
     async fn close(self: Box<Self>) -> Result<()>;
 }
@@ -368,6 +383,15 @@ impl<const N: usize> Sut for S<N> {
     async fn filter_memory(&self) -> usize {
         BloomProvider::filter_memory_allocated(&self.0).await
     }
+    async fn overall_filter(&self, key: &[u8]) -> (bool, bool, bool) {
+        use pearl::filter::FilterTrait;
+        let kk = k::<N>(key);
+        let fast = BloomProvider::check_filter_fast(&self.0, &kk) == FilterResult::NotContains;
+        match BloomProvider::get_filter(&self.0).await {
+            Some(f) => (true, f.contains_fast(&kk) == FilterResult::NotContains, fast),
+            None => (false, false, fast),
+        }
+    }
     fn bg(&self) -> BgState {
         self.0.verif_bg()
     }
@@ -376,8 +400,12 @@ impl<const N: usize> Sut for S<N> {
     }
 }
 
-async fn open_n<const N: usize>(cfg: &Cfg, dir: &Path, lazy: bool) -> Result<Box<dyn Sut>> {
-    let mut s: Storage<ArrayKey<N>> = cfg.builder(dir).build()?;
+async fn open_n<const N: usize>(cfg: &Cfg, dir: &Path, lazy: bool, sem: Option<std::sync::Arc<tokio::sync::Semaphore>>) -> Result<Box<dyn Sut>> {
+    let mut b = cfg.builder(dir);
+    if let Some(sem) = sem {
+        b = b.set_dump_sem(sem);
+    }
+    let mut s: Storage<ArrayKey<N>> = b.build()?;
     if lazy {
         s.init_lazy().await?;
     } else {
@@ -464,15 +492,20 @@ pub async fn open_cancel_init(cfg: &Cfg, dir: &Path, lazy: bool, k: usize, group
 
 /// Builds and initialises a storage on `dir`
 pub async fn open(cfg: &Cfg, dir: &Path, lazy: bool) -> Result<Box<dyn Sut>> {
+    open_sem(cfg, dir, lazy, None).await
+}
+
+/// `open` with a caller-owned dump semaphore (`Builder::set_dump_sem`: shared between storages on one disk)
+pub async fn open_sem(cfg: &Cfg, dir: &Path, lazy: bool, sem: Option<std::sync::Arc<tokio::sync::Semaphore>>) -> Result<Box<dyn Sut>> {
     match cfg.keylen {
-        1 => open_n::<1>(cfg, dir, lazy).await,
-        4 => open_n::<4>(cfg, dir, lazy).await,
-        8 => open_n::<8>(cfg, dir, lazy).await,
-        32 => open_n::<32>(cfg, dir, lazy).await,
-        33 => open_n::<33>(cfg, dir, lazy).await,
-        128 => open_n::<128>(cfg, dir, lazy).await,
-        100 => open_n::<100>(cfg, dir, lazy).await,
-        400 => open_n::<400>(cfg, dir, lazy).await,
+        1 => open_n::<1>(cfg, dir, lazy, sem).await,
+        4 => open_n::<4>(cfg, dir, lazy, sem).await,
+        8 => open_n::<8>(cfg, dir, lazy, sem).await,
+        32 => open_n::<32>(cfg, dir, lazy, sem).await,
+        33 => open_n::<33>(cfg, dir, lazy, sem).await,
+        128 => open_n::<128>(cfg, dir, lazy, sem).await,
+        100 => open_n::<100>(cfg, dir, lazy, sem).await,
+        400 => open_n::<400>(cfg, dir, lazy, sem).await,
         n => Err(anyhow!("unsupported key length {}", n)),
     }
 }
